@@ -91,7 +91,9 @@ def spell(rnd, plat: str, base: int, mask: int, dirty=True) -> tuple:
     b = (base & ~mask & ALL) | noise
     forms = ["wild"]
     if mask == ALL:
-        forms += ["any", "any", "prefix"]
+        # "A.B.C.D/0" on IOS is the known finding N1 (renders the all-ones wildcard, copy() gives "any"):
+        # only the kernels that own N1 (C06/C16) generate it
+        forms += ["any", "any"] + (["prefix"] if plat != "ios" else [])
     if mask == 0:
         forms += ["host", "host", "prefix"]
     if is_contig(mask) and mask not in (0, ALL):
